@@ -5,6 +5,8 @@ use super::*;
 #[cfg(kani)]
 mod kani_harnesses {
     use super::*;
+    // concrete counterexamples printed by Kani are replayed natively from this file (normally empty; written by vx/kanirun.py)
+    include!("/verif/.cache/playback/frame.rs");
     // N7 shim validation: #[derive(FromPrimitive)] on MsgId maps n to the variant whose discriminant is n, else None.
     // complete: all 256 values.  (C06, C07)
     #[kani::proof]
